@@ -204,6 +204,15 @@ std::vector<Scenario> scenarios() {
     auto ev = [](double x) { return Scenario::Op{"evaluate(" + std::to_string((int)x) + ")", [x](void* o) { return std::to_string((int)static_cast<CK*>(o)->evaluate(x)); }}; };
     Scenario::Op gr{"getReport()", [](void* o) { DiagnosticReport r = static_cast<CK*>(o)->getReport(); return rep(r); }};
     s.threads = {{to, ev(5), to, ev(20)}, {gr, gr}}; v.push_back(s); }
+  {   // two INDEPENDENT check-ups of different classes, each with its own writer: nothing may be shared between them (e.g. a formatter)
+    struct Two { CheckupGreaterThan<double> a{"a", 10.0, 1.0}; CheckupLowerThan<double> b{"b", 10.0, 1.0}; };
+    Scenario s; s.name = "two independent check-ups (GreaterThan, LowerThan): one evaluator each (2 evaluations), one reader (a report copy of each)";
+    s.make = []() { return sp(new Two); };
+    s.threads = {{{"a.evaluate(377.5)", [](void* o) { return std::to_string((int)static_cast<Two*>(o)->a.evaluate(377.5)); }}, {"a.evaluate(12.25)", [](void* o) { return std::to_string((int)static_cast<Two*>(o)->a.evaluate(12.25)); }}},
+                 {{"b.evaluate(0.9)", [](void* o) { return std::to_string((int)static_cast<Two*>(o)->b.evaluate(0.9)); }}, {"b.evaluate(7.125)", [](void* o) { return std::to_string((int)static_cast<Two*>(o)->b.evaluate(7.125)); }}},
+                 {{"a.getReport()", [](void* o) { DiagnosticReport r = static_cast<Two*>(o)->a.getReport(); return rep(r); }}, {"b.getReport()", [](void* o) { DiagnosticReport r = static_cast<Two*>(o)->b.getReport(); return rep(r); }}}};
+    v.push_back(s);
+  }
   add_checkup<CheckupEqualTo<double>>(v, "CheckupEqualTo: evaluator (evaluate,evaluate,timeout), reader (2 report copies)");
   add_checkup<CheckupGreaterThan<double>>(v, "CheckupGreaterThan: evaluator (evaluate,evaluate,timeout), reader (2 report copies)");
   add_checkup<CheckupLowerThan<double>>(v, "CheckupLowerThan: evaluator (evaluate,evaluate,timeout), reader (2 report copies)");
